@@ -260,7 +260,8 @@ def check(repo, rep):
             rep.unknown('to_array: result %s is not a reshape' % show(v)[:80])
             continue
         kws = dict(v[3])
-        rep.ob('channels are de-interleaved: reshape(channels, -1, order="F")', v[2][:2] == (('p', 'channels'), ('c', -1)) and kws.get('order') == ('c', 'F'), where, 'to_array:reshape', 'reshape arguments %s %s' % ([show(a) for a in v[2]], kws.get('order')),
+        shape_ = v[2][0][1] if len(v[2]) == 1 and v[2][0][0] in ('tuple', 'list') else v[2]          # reshape(a, b) and reshape((a, b)) are the same call
+        rep.ob('channels are de-interleaved: reshape(channels, -1, order="F")', tuple(shape_[:2]) == (('p', 'channels'), ('c', -1)) and kws.get('order') == ('c', 'F'), where, 'to_array:reshape', 'reshape arguments %s %s' % ([show(a) for a in v[2]], kws.get('order')),
                sample=dict(reshape=show(v)[-60:]))
         base = strip_conv(v[1][1])
         okb = is_np_call(base, ('frombuffer',)) and base[2][:1] == (('p', 'data'),)
